@@ -367,6 +367,7 @@ func registerIntrinsics(ex *Exec) {
 	registerSync(ex)
 	registerFmt(ex)
 	registerConcretizing(ex)
+	registerBytealg(ex)
 }
 
 // nativeError builds an error value (*errors.errorString) for a message.
